@@ -107,6 +107,12 @@ CHECKS["C20"] = dict(
     text="640 dependents per quick run: ~440 against the corelib cache (generated programs, e2e snippets, examples; ~28 core functions per dependent on average) and ~200 against a generated library crate's cache (in half of them the corelib is cached too).",
     note="The blob is generated under the same global flags as it is used with (a different flag set is refused by the loader, a documented precondition), so the numeric-match flag stays unset. Dependents that panic on both sides are skipped.")
 
+CHECKS["C19"] = dict(
+    level="exploration", design="DESIGN.md 3/C19",
+    technique="property-based testing with validity predicates and a differential: generated Starknet contracts (template grammar over entry-point sets, names and builtin-using bodies) and the 20 test contracts are compiled to classes; each CasmContractClass is checked against an own recompilation (calc_metadata + compile + assemble + encode of the decoded program) and against structural invariants stated by the property",
+    text="~790 classes per quick run (20 corpus contracts + ~770 generated, using all nine protocol builtins between them); per class: published-JSON vs in-memory class, class-hash and JSON stability, pythonic hints on/off, bytecode vs own recompilation, entry point offset / builtin list / selector order / selector == keccak(ABI name), hint offsets, segment length sum, max_bytecode_size = size and size-1.",
+    note="Trusted: my own copy of the protocol builtin order and names; the decoded Sierra program as the thing the class means. Generated contracts rejected by the front end are skipped (health check bounds them).")
+
 PENDING_REASON = "check not built yet in this session (planned in DESIGN.md section 3; the property itself is amenable to the technique)"
 
 def main():
